@@ -115,6 +115,15 @@ WTTop(p, root, j, reqcls) ==
 (* Failing positions, for signatures: the innermost declared positions at  *)
 (* which w fails to be an admissible re-serialisation of j (mirrors RT).   *)
 (***************************************************************************)
+\* does a type mention an enumeration (directly, in a container, union or alias)?
+RECURSIVE MentionsEnum(_)
+MentionsEnum(t) == CASE t.kind = "reference" -> t.name \in EName \/ (t.name \in AName /\ t.name # "LSPAny" /\ MentionsEnum(ADef[t.name].type))
+                     [] t.kind = "array" -> MentionsEnum(t.element)
+                     [] t.kind = "map" -> MentionsEnum(t.value)
+                     [] t.kind = "or" -> \E i \in DOMAIN t.items : MentionsEnum(t.items[i])
+                     [] OTHER -> FALSE
+EnumTag(t) == IF MentionsEnum(t) THEN "|enum" ELSE ""
+
 RECURSIVE Bad(_, _, _, _)
 BadProps(j, w, props, owner) ==
     IF j.k # "obj" \/ w.k # "obj" THEN {owner \o "|shape"}
@@ -123,7 +132,7 @@ BadProps(j, w, props, owner) ==
                         THEN Bad(j.f[key], w.f[key], PropNamed(props, key).type, owner \o "." \o key)
                         ELSE {owner \o "." \o key \o "|echoed"})
                   ELSE (IF ~HasProp(props, key) THEN {}
-                        ELSE {owner \o "." \o key \o "|lost"})
+                        ELSE {owner \o "." \o key \o "|lost" \o EnumTag(PropNamed(props, key).type)})
                 : key \in DOMAIN j.f })
          \cup { owner \o "." \o key \o "|added" :
                 key \in {k2 \in DOMAIN w.f \ DOMAIN j.f :
@@ -162,7 +171,7 @@ BadWTProps(p, props, j, clsOK, owner) ==
                  IF key \notin DOMAIN p.p THEN {owner \o "." \o pr.name \o "|noattr"}
                  ELSE IF pr.name \in DOMAIN j.f
                       THEN (IF p.p[key].k = "none"
-                            THEN (IF j.f[pr.name].k = "null" THEN {} ELSE {owner \o "." \o pr.name \o "|none"})
+                            THEN (IF j.f[pr.name].k = "null" THEN {} ELSE {owner \o "." \o pr.name \o "|none" \o EnumTag(pr.type)})
                             ELSE BadWT(p.p[key], pr.type, j.f[pr.name], owner \o "." \o pr.name))
                       ELSE (IF \/ p.p[key].k = "none"
                                \/ IsLit(pr) /\ p.p[key].k = "str" /\ p.p[key].s = pr.type.value
